@@ -239,6 +239,18 @@ func c10(tier string, args []string) int {
 							r.Violation("C10/via-reinit-of-another-round/"+fm.Event, fmt.Sprintf("in %s an unsigned %s in %s's name for this round, embedded in an (unauthenticated) reinitialisation message of another, fresh round, changed this round: now %s (error: %v)", bs, fm.Event, fm.SenderAddr, after.RoundState(rec.Round), err), map[string]interface{}{"n": nt.n, "t": nt.t, "base": bs.String(), "embedded_event": fm.Event, "in_the_name_of": fm.SenderAddr, "reinit_round": fresh})
 						}
 					}
+					// (iii) a reinit of a fresh round addressed to this node alone: what the other
+					// participants never see cannot be confirmed by them out of band
+					{
+						re := types.ReDKG{DKGID: fresh, Threshold: nt.t, Participants: parts, Messages: replayedWithPatches(w, fresh)}
+						mm := storage.Message{DkgRoundID: fresh, Event: string(types.ReinitDKG), Data: world.MustJSON(re), SenderAddr: "anyone", RecipientAddr: w.Nodes[v].Name}
+						err, after, _ := lab.Step(bs.Snap, mm)
+						evals++
+						classes["reinit-addressed|"+bs.Phase] = true
+						if _, opened := after.Rounds()[fresh]; opened || len(changedProtected(bs.Snap, after)) > 0 {
+							r.Violation("C10/reinit-addressed-to-one-node", fmt.Sprintf("in %s an (unauthenticated) reinitialisation message addressed to this node alone was acted on: round %s opened=%v, changed %v (error: %v)", bs, fresh[:8], opened, changedProtected(bs.Snap, after), err), map[string]interface{}{"n": nt.n, "t": nt.t, "base": bs.String(), "reinit_round": fresh})
+						}
+					}
 					re := types.ReDKG{DKGID: fresh, Threshold: nt.t, Participants: parts}
 					mm := storage.Message{DkgRoundID: rec.Round, Event: string(types.ReinitDKG), Data: world.MustJSON(re), SenderAddr: "anyone"}
 					err, after, _ := lab.Step(bs.Snap, mm)
